@@ -145,7 +145,28 @@ func c18FreePort(udp bool) int {
 	panic("c18: no free port")
 }
 
-// c18CanBind reports whether the address can be bound again (with retries for asynchronous closes).
+// c18Listening: a socket in LISTEN state on the tcp port (any address), from /proc/net/tcp{,6}.
+func c18Listening(port int) bool {
+	want := fmt.Sprintf(":%04X", port)
+	for _, f := range []string{"/proc/net/tcp", "/proc/net/tcp6"} {
+		raw, err := os.ReadFile(f)
+		if err != nil {
+			continue
+		}
+		for _, line := range strings.Split(string(raw), "\n")[1:] {
+			fs := strings.Fields(line)
+			if len(fs) > 3 && strings.HasSuffix(fs[1], want) && fs[3] == "0A" {
+				return true
+			}
+		}
+	}
+	return false
+}
+
+// c18CanBind reports whether the listening address was released (with retries for asynchronous closes).
+// udp: the address can be bound again. tcp: it can be bound again, or at least no socket listens on it any
+// more — connections that the proxy closed first linger in TIME_WAIT and block a new bind for a minute when
+// the listener had no SO_REUSEADDR (gnet's listeners); that is kernel state, not an open socket.
 func c18CanBind(udp bool, port int) bool {
 	addr := "127.0.0.1:" + strconv.Itoa(port)
 	return c18Wait(func() bool {
@@ -159,7 +180,7 @@ func c18CanBind(udp bool, port int) bool {
 		}
 		l, err := net.Listen("tcp", addr)
 		if err != nil {
-			return false
+			return !c18Listening(port)
 		}
 		l.Close()
 		return true
